@@ -30,7 +30,7 @@ NOT_REACHED = ["curves without a peak in the range (refused / undefined)", "grid
 BUDGET = {"quick": dict(cases=15000, seconds=60, shards=4),
           "thorough": dict(cases=1500000, seconds=600, shards=16)}
 REQUIRED = ["mon:reliability-verdicts", "mon:clarity-verdicts", "mon:more-windows-never-fail-ii",
-            "mon:smaller-fn-std-never-fails-v", "mon:verbosity-levels-agree"]
+            "mon:smaller-fn-std-never-fails-v", "mon:verbosity-levels-agree", "mon:range-argument-unchanged"]
 
 BANDS = [(0.05, 0.2), (0.2, 0.5), (0.5, 1.0), (1.0, 2.0), (2.0, 20.0)]
 
@@ -209,8 +209,56 @@ def fam_verdicts(ctx, rng, coarse=False):
     ctx.state([meta["band"], meta["edge"], meta["range_class"], tuple(int(x) for x in tot)])
 
 
+def fam_sequence(ctx, rng):
+    """Several sites assessed one after the other by one script that keeps ONE search-range object (a list, a tuple
+    or an array, open-ended on at least one side): each site's verdicts are those of that site alone, and the
+    range object is the caller's and keeps its value."""
+    from hvsrpy import sesame
+    k = int(rng.integers(2, 5))
+    cases = [gen_case(rng) for _ in range(k)]
+    f0s = [c[0]["f0"] for c in cases]
+    form = str(rng.choice(["open-below", "open-above", "open-both"]))
+    lo = None if form in ("open-below", "open-both") else float(min(f0s) / rng.uniform(1.5, 8))
+    hi = None if form in ("open-above", "open-both") else float(max(f0s) * rng.uniform(1.5, 8))
+    container = str(rng.choice(["list", "list", "tuple", "object-array"]))
+    shared = [lo, hi] if container == "list" else (lo, hi) if container == "tuple" else np.array([lo, hi], dtype=object)
+    ctx.describe(sites=k, f0s=f0s, search_range=[lo, hi], container=container,
+                 grids=[[float(c[1][0]), float(c[1][-1]), int(c[1].size)] for c in cases])
+    judged = 0
+    for i, (meta, f, mean, std, _) in enumerate(cases):
+        opts = model_options(f, mean, std, (lo, hi), meta["lw"], meta["nw"], meta["fn_std"])
+        if not opts:
+            ctx.count("cases_without_admissible_peak")
+            continue
+        info = dict(f0=meta["f0"], band=meta["band"], edge=meta["edge"], search_range=[lo, hi], lw=meta["lw"], nw=meta["nw"],
+                    fn_std=meta["fn_std"], ratio=meta["ratio"], site_number=i, container=container,
+                    grid=[float(f[0]), float(f[-1])], mechanism="sites-assessed-with-one-range-object")
+        try:
+            rel = quiet(sesame.reliability, meta["lw"], meta["nw"], f, mean, std, search_range_in_hz=shared, verbose=0)
+            cla = quiet(sesame.clarity, f, mean, std, meta["fn_std"], search_range_in_hz=shared, verbose=0)
+        except Exception as e:
+            if not Oracle(f, mean, (lo, hi)).must:
+                ctx.count("cases_without_must_find_peak_refused")
+            else:
+                ctx.check(False, "no-unexpected-error", f"sesame raised {e!r} for site {i} of a sequence", **info)
+            continue
+        ctx.count("sesame_calls", 2)
+        judged += 1
+        ctx.check(any(matches(rel, o[0]) for o in opts), "reliability-verdicts",
+                  f"reliability verdicts of site {i} of a sequence differ from the guideline's criteria for that site",
+                  got=[int(x) for x in rel], want=[o[0] for o in opts[:3]], **info)
+        ctx.check(any(matches(cla, o[1]) for o in opts), "clarity-verdicts",
+                  f"clarity verdicts of site {i} of a sequence differ from the guideline's criteria for that site",
+                  got=[int(x) for x in cla], want=[o[1] for o in opts[:3]], **info)
+        ctx.check(list(shared) == [lo, hi], "range-argument-unchanged", "the caller's search-range object was modified by sesame",
+                  now=[None if x is None else float(x) for x in shared], **info)
+    if judged >= 2:
+        ctx.nontrivial(["sequence", k, form, container, [round(x, 3) for x in f0s]])
+    ctx.state(["sequence", form, container, judged])
+
+
 def fam_coarse(ctx, rng):
     fam_verdicts(ctx, rng, coarse=True)
 
 
-FAMILIES = [("guideline-verdicts", fam_verdicts), ("guideline-verdicts-2", fam_verdicts), ("coarse-grid", fam_coarse)]
+FAMILIES = [("guideline-verdicts", fam_verdicts), ("guideline-verdicts-2", fam_verdicts), ("coarse-grid", fam_coarse), ("sites-in-sequence", fam_sequence)]
